@@ -21,7 +21,7 @@ theorem received_eq (h : List (Op × Res)) : Spec.Chan.received h = gots h := by
   | nil => rfl
   | cons x h ih =>
     obtain ⟨op, r⟩ := x
-    cases r <;> simp_all [Spec.Chan.received, gots, List.filterMap_cons]
+    cases r <;> simp_all [Spec.Chan.received, gots]
 
 /-- distinct sequence numbers per sender ⇒ no message occurs twice -/
 theorem nodup_of_ids (l : List Msg) (n : Nat → Nat)
@@ -67,7 +67,7 @@ macro "obs_tac" t:term : tactic =>
   `(tactic| (constructor <;> intro x <;> by_cases hx : x = $t <;>
       simp_all [St.finish, upd] <;> (try grind)))
 
-theorem obs_step (s s' : St) (h : ObsInv s) (hp : Prim s s') : ObsInv s' := by
+theorem obs_step (s s' : St) (hpr : Proto s) (h : ObsInv s) (hp : Prim s s') : ObsInv s' := by
   obtain ⟨h1, h2⟩ := h
   cases hp with
   | sendCheck t v hpc =>
@@ -105,6 +105,7 @@ theorem obs_step (s s' : St) (h : ObsInv s) (hp : Prim s s') : ObsInv s' := by
     · obs_tac t
     · obs_tac t
   | closeFinal t s' hpc hs =>
+    have hf : s.flag = true := hpr.cflag t (by simp [hpc, isCloser])
     unfold stepCloseFinal at hs
     split at hs
     · cases hs
@@ -114,7 +115,7 @@ theorem obs_step (s s' : St) (h : ObsInv s) (hp : Prim s s') : ObsInv s' := by
   | isClosed t hpc =>
     unfold stepIsClosed
     obs_tac t
-  | hand t r v hpt hpr hc hcap hb =>
+  | hand t r v hpt hpr' hc hcap hb =>
     unfold handSt
     constructor <;> intro x <;> by_cases hx : x = t <;> by_cases hy : x = r <;>
       simp_all [St.finish, upd] <;> (try grind)
@@ -128,11 +129,11 @@ structure Inv (s : St) : Prop where
 
 theorem inv_exec (cap : Nat) (prog : Nat → List Op) (sched : List Act) :
     Inv (exec (init cap prog) sched) :=
-  exec_induct Inv (fun s s' h _ hp => ⟨proto_step s s' h.proto hp, data_step s s' h.data hp, obs_step s s' h.obs hp⟩)
+  exec_induct Inv (fun s s' h _ hp => ⟨proto_step s s' h.proto hp, data_step s s' h.data hp, obs_step s s' h.proto h.obs hp⟩)
     sched _ ⟨proto_init cap prog, data_init cap prog, obs_init cap prog⟩
 
 theorem inv_exec_from (s : St) (h : Inv s) (sched : List Act) : Inv (exec s sched) :=
-  exec_induct Inv (fun s s' h _ hp => ⟨proto_step s s' h.proto hp, data_step s s' h.data hp, obs_step s s' h.obs hp⟩)
+  exec_induct Inv (fun s s' h _ hp => ⟨proto_step s s' h.proto hp, data_step s s' h.data hp, obs_step s s' h.proto h.obs hp⟩)
     sched _ h
 
 end Proofs.Chan
